@@ -413,15 +413,20 @@ def _declared_table(prog):
 
 
 def _scaling_classes(prog):
+    """scaling classes the factory can construct: every class of nptdms.scaling instantiated (directly or through
+    from_properties) by _get_channel_scaling or the module helpers it calls"""
+    from .sem import module_region
     fi = prog.func("scaling._get_channel_scaling")
     out = []
-    for n in walk_body(fi.node):
-        if isinstance(n, ast.Call) and isinstance(n.func, ast.Attribute) and n.func.attr == "from_properties":
-            c = prog.resolve_class(fi.module, n.func.value)
-            if c is not None and c not in out:
-                out.append(c)
-        elif isinstance(n, ast.Call) and isinstance(n.func, ast.Name):
-            c = prog.resolve_class(fi.module, n.func)
+    for f in module_region(prog, fi):
+        for n in walk_body(f.node):
+            c = None
+            if isinstance(n, ast.Call) and isinstance(n.func, ast.Attribute) and n.func.attr == "from_properties":
+                c = prog.resolve_class(f.module, n.func.value)
+            elif isinstance(n, ast.Call) and isinstance(n.func, ast.Name):
+                c = prog.resolve_class(f.module, n.func)
+            elif isinstance(n, ast.Attribute) and n.attr == "from_properties":
+                c = prog.resolve_class(f.module, n.value)
             if c is not None and c.module.name == "scaling" and c not in out and c.name != "MultiScaling":
                 out.append(c)
     if len(out) < 10:
